@@ -332,12 +332,161 @@ def run_nested(where, grepo):
     return not bad, obs
 
 
+def run_rrel_root(grepo):
+    """'+m:' RREL with a user class for the root rule that keeps parent = None (written like the classes of contained rules): the imported
+    models and the builtin models are start points of the search all the same"""
+    from textx import metamodel_from_str
+    from textx.scoping import ModelRepository
+
+    d = os.path.join(core.rundir(), "c17rr-%d" % os.getpid())
+    os.makedirs(d, exist_ok=True)
+    for fn, t in {"a.m": 'import "b.m" i a1 r b1 i a2 r a1 i a3 r s1', "b.m": 'import "a.m" i b1 r a1', "std.m": "i s1"}.items():
+        with open(os.path.join(d, fn), "w") as f:
+            f.write(t)
+
+    class Model:
+        parent = None  # class-level default, visible before __init__ has run (user classes are initialised after the references are resolved)
+
+        def __init__(self, imports=None, items=None):
+            self.imports, self.items = imports, items
+    g = "Model: imports*=Import items*=Item; Import: 'import' importURI=STRING; Item: 'i' name=ID ('r' ref=[Item:ID|+m:items])?;"
+    std = metamodel_from_str(g, classes=[Model]).model_from_file(os.path.join(d, "std.m"))
+    repo = ModelRepository()
+    repo.add_model(std)
+    mm = metamodel_from_str(g, classes=[Model], builtin_models=repo, global_repository=grepo)
+    obs = {"family": "'+m:' RREL, root user class with parent=None", "global_repository": grepo}
+    bad = []
+    try:
+        m = mm.model_from_file(os.path.join(d, "a.m"))
+        names = [(i.name, getattr(i.ref, "name", None)) for i in m.items]
+        if names != [("a1", "b1"), ("a2", "a1"), ("a3", "s1")]:
+            bad.append(("references", names))
+        elif m.items[2].ref is not std.items[0]:
+            bad.append(("identity of the builtin model's object",))
+    except Exception as e:
+        bad.append(("exception", "%s: %s" % (type(e).__name__, str(e).replace(d, "<dir>")[:140])))
+    obs["failures"] = bad
+    return not bad, obs
+
+
+def run_nested_eq(grepo):
+    """a load started inside an object processor whose root object compares EQUAL (user __eq__) to the root of the enclosing load: it is a model of its
+    own - resolved, initialised, processed"""
+    from textx import metamodel_from_str
+
+    inits, procs, nested = [], [], []
+
+    class Model:
+        def __init__(self, **kw):
+            inits.append(id(self))
+            self.__dict__.update(kw)
+
+        def __eq__(self, other):
+            return isinstance(other, Model)  # every model of this language is "the same unit"
+
+        __hash__ = object.__hash__
+    mm = metamodel_from_str("Model: imports*=Import items*=Item; Import: 'import' importURI=STRING; Item: 'i' name=ID ('r' ref=[Item])?;", classes=[Model], global_repository=grepo)
+
+    def itemproc(o):
+        procs.append(o.name)
+        if o.name == "a1" and not nested:
+            nested.append(mm.model_from_str("i n1 i n2 r n1"))
+    mm.register_obj_processors({"Item": itemproc})
+    obs = {"family": "nested load of a model equal to the enclosing one", "global_repository": grepo}
+    bad = []
+    try:
+        m = mm.model_from_str("i a1 i a2 r a1")
+        n = nested[0] if nested else None
+        if n is None or n is m:
+            bad.append(("nested model",))
+        else:
+            if [(i.name, getattr(i.ref, "name", None)) for i in n.items] != [("n1", None), ("n2", "n1")]:
+                bad.append(("references of the nested model", [(i.name, getattr(i.ref, "name", None)) for i in getattr(n, "items", [])]))
+            if id(n) not in inits:
+                bad.append(("root of the nested model never initialised",))
+            if sorted(procs) != ["a1", "a2", "n1", "n2"]:
+                bad.append(("object processor calls", sorted(procs)))
+        if [(i.name, getattr(i.ref, "name", None)) for i in m.items] != [("a1", None), ("a2", "a1")]:
+            bad.append(("references of the outer model",))
+    except Exception as e:
+        bad.append(("exception", "%s: %s" % (type(e).__name__, str(e)[:140])))
+    obs["failures"] = bad[:3]
+    return not bad, obs
+
+
+def run_nested_failing(grepo):
+    """the load nested in a scope provider FAILS (the library file holds an unknown reference) and the provider goes on without it: the
+    enclosing load and its files must be unaffected (still cached when there is a global repository)"""
+    from textx import metamodel_from_str
+    from textx.exceptions import TextXError
+    from textx.scoping import providers as P
+
+    d = os.path.join(core.rundir(), "c17nf-%d" % os.getpid())
+    os.makedirs(d, exist_ok=True)
+    for fn, t in {"a.m": 'import "b.m" i a1 r b1 i a2 r l1 i a3 r a1', "b.m": "i b1 i b2 r b1", "lib.m": "i l1 r nosuch"}.items():
+        with open(os.path.join(d, fn), "w") as f:
+            f.write(t)
+    class Item:  # a user class: its objects keep their attributes outside the object while their model is under construction
+        def __init__(self, **kw):
+            self.__dict__.update(kw)
+    mm = metamodel_from_str("Model: imports*=Import items*=Item; Import: 'import' importURI=STRING; Item: 'i' name=ID ('r' ref=[Item])?;", global_repository=grepo, classes=[Item])
+    inner = P.PlainNameImportURI()
+    tried = []
+
+    class Lazy(P.PlainNameImportURI):
+        def __call__(self, obj, attr, obj_ref):
+            r = inner.__call__(obj, attr, obj_ref)
+            from textx import get_model
+
+            if r is None and os.path.basename(get_model(obj)._tx_filename or "") == "lib.m":
+                return None  # inside the library itself: unknown
+            if r is None:
+                if not tried:
+                    tried.append(1)
+                    try:
+                        mm.model_from_file(os.path.join(d, "lib.m"))
+                    except TextXError:
+                        pass
+                return get_model(obj).items[0]  # fall back to a default target
+            return r
+    mm.register_scope_providers({"*.*": Lazy()})
+    helper = []
+
+    def idproc(x):
+        # a second failing nested load: a helper text with a SYNTAX error is parsed while a value of the IMPORTED file b.m is converted
+        if x == "b2" and not helper:
+            helper.append(1)
+            try:
+                mm.model_from_str("i x i")
+            except TextXError:
+                pass
+        return x
+    mm.register_obj_processors({"ID": idproc})
+    obs = {"nested_load_in": "scope-provider (unknown reference, caught) and match processor of the imported file (syntax error, caught)", "global_repository": grepo}
+    bad = []
+    try:
+        m = mm.model_from_file(os.path.join(d, "a.m"))
+        names = [(i.name, getattr(i.ref, "name", None)) for i in m.items]
+        if names != [("a1", "b1"), ("a2", "a1"), ("a3", "a1")] or not tried or not helper:
+            bad.append(("references of the outer model", names))
+        if grepo:
+            cached = sorted(os.path.basename(k) for k in mm._tx_model_repository.all_models.filename_to_model)
+            if cached != ["a.m", "b.m"]:
+                bad.append(("global repository after the load", cached))
+            if mm.model_from_file(os.path.join(d, "a.m")) is not m:
+                bad.append(("a repeated load returns another instance",))
+    except Exception as e:
+        bad.append(("exception", "%s: %s" % (type(e).__name__, str(e).replace(d, "<dir>")[:140])))
+    obs["failures"] = bad[:3]
+    return not bad, obs
+
+
 def work_glob(arg):
     u = Unit()
     for order, grepo in arg:
         cid = ["string-main", order, grepo] if isinstance(order, str) else ["glob-two-languages", list(order), grepo]
         with watchdog(30):
-            ok, obs = (run_nested(order[7:], grepo) if order.startswith("nested:") else run_string_main(order, grepo)) if isinstance(order, str) else run_glob_case(order, grepo)
+            ok, obs = (run_nested_eq(grepo) if order == "nested:eq-root" else run_rrel_root(grepo) if order == "nested:rrel-root" else run_nested_failing(grepo) if order == "nested:failing" else run_nested(order[7:], grepo) if order.startswith("nested:") else run_string_main(order, grepo)) if isinstance(order, str) else run_glob_case(order, grepo)
         u.case(cid, nontrivial=True, sample=obs if isinstance(order, str) or list(order) == [1, 0, 3, 2, 4] else None)
         u.transitions += 1
         u.count("glob import over two languages")
@@ -387,7 +536,7 @@ def run(ctx):
 
     gl = [(o, gr) for o in itertools.permutations(range(len(GLOB_FILES))) for gr in (False, True)]
     gl += [(prov, how) for prov in ("PlainNameImportURI", "FQNImportURI") for how in ("absolute", "search-path", "empty-text-with-file-name", "encoding")]
-    gl += [("nested:" + w, gr) for w in ("scope-provider", "model-processor", "match-processor") for gr in (False, True)]
+    gl += [("nested:" + w, gr) for w in ("scope-provider", "model-processor", "match-processor", "failing", "rrel-root", "eq-root") for gr in (False, True)]
     ctx.pmap(work_glob, [gl[i:i + 8] for i in range(0, len(gl), 8)])
     ctx.states = ctx.evaluations
     return {
@@ -400,6 +549,12 @@ def run(ctx):
 
 def replay(p):
     if "glob" in p:
+        if p["glob"][0] == "nested:eq-root":
+            return run_nested_eq(p["glob"][1])
+        if p["glob"][0] == "nested:rrel-root":
+            return run_rrel_root(p["glob"][1])
+        if p["glob"][0] == "nested:failing":
+            return run_nested_failing(p["glob"][1])
         if isinstance(p["glob"][0], str) and p["glob"][0].startswith("nested:"):
             return run_nested(p["glob"][0][7:], p["glob"][1])
         if isinstance(p["glob"][0], str):
